@@ -11,6 +11,11 @@
            error class, set of tasks processed, tasks whose action ran,
            start order;
     each compared with the Lean model of the code as it is (`head`).
+      dodo: the same case written as a real dodo file found through -f / --file= / --dir / -k / DOIT_FILE / DOIT_SEEK_FILE,
+           `python -m doit` started as a subprocess from another directory (proj/sub, the root, work/): same observables
+           plus the working directory the actions saw;
+      run_tasks: doit.api.run_tasks(loader, {name: {}, ...}) (no command line: names are not filtered, errors are raised);
+    the command line of the cli/dodo tiers loses its name=value words before selection (Sel.stripVars / planCli);
 (P) the Lean predicate `DoitModel.Sel.monitor` (the statement: exit 3 and nothing processed when the selection does not
     resolve; else exit 0, processed set == closure of the *specified* selection -- with --single after dropping the task
     dependencies of the named tasks --, order clause) evaluated by the driver on the observations of the cli run; on the
@@ -28,7 +33,7 @@ META = {
     'property': 'C12',
     'lean_props': ['DoitModel.Props.C12'],
     'level': 'proof',
-    'budget': {'quick': 30, 'thorough': 420},
+    'budget': {'quick': 40, 'thorough': 480},
     'anchors': ['doit/control.py::TaskControl.__init__', 'doit/control.py::TaskControl.set_implicit_deps',
                 'doit/control.py::TaskControl.add_implicit_task_dep', 'doit/control.py::TaskControl._get_wild_tasks',
                 'doit/control.py::TaskControl._process_filter', 'doit/control.py::TaskControl._filter_tasks',
@@ -61,11 +66,18 @@ META = {
             'task names, names sharing prefixes, literal names made of glob metacharacters `[` `]` `?` (also in task_dep), '
             'params/pos_arg, uptodate tasks, wild-card/setup/calc/implicit deps, '
             'acyclic) x argv of names, group names, sub-task names, targets, patterns matching 0..n names, unknown '
-            'names (also ones made of format metacharacters `{}` `{0}` `%s` `%(x)s`), option tokens x default_tasks x '
+            'names, name=value words and the empty word, file names written ./x, absolute or as pathlib.Path (targets, '
+            'file_dep, command line) (also ones made of format metacharacters `{}` `{0}` `%s` `%(x)s`), option tokens x default_tasks x '
             '--single; plus all argv of length <= 3 over a 9-token alphabet on '
             'fixed 3-4 task sets; non-trivial = the selection has >= 2 entries, or uses a pattern/target/option, or '
             'is rejected; distinct = distinct canonical case',
-    'assumptions': ['patterns use only `*`, `?` and literal characters', 'task option tokens: short clusters, exact long '
+    'assumptions': ['file names are compared as written (a, ./a, absolute are different names for selection by target, '
+                    'implicit task_dep and duplicate targets); a pathlib.Path entry stands for str(path) (pathlib\'s '
+                    'normal form, computed by the harness with PurePosixPath)',
+                    'name=value words (not starting with `-`) on the command line are command-line variables and are '
+                    'taken out before selection, also where meant as a detached option value (documented feature; '
+                    'modelled as the code does: Sel.stripVars)',
+                    'patterns use only `*`, `?` and literal characters', 'task option tokens: short clusters, exact long '
                     'names (no unique-prefix abbreviations, no inverse options)',
                     'all actions succeed on a fresh DB; calc_dep tasks return no values (static graph)',
                     '--single on a group whose own task_dep lists more than its sub-tasks: every entry is treated like a '
@@ -99,6 +111,8 @@ def cli_eligible(case):
     if any(t.get('delayed') for t in case['tasks']):
         return False
     # the first word that reaches the `run` command must not look like one of its own options
+    if case.get('entry') == 'run_tasks':
+        return True
     rest = [a for a in case['argv'] if not (a and a[0] != '-' and '=' in a)]
     if rest and rest[0].startswith('-'):
         return False
@@ -124,7 +138,12 @@ def evaluate(cases, workdir, want_cli=True):
     impl = []
     for case in cases:
         api = sellib.impl_control(case)
-        cli = sellib.impl_cli(case, workdir) if (want_cli and cli_eligible(case)) else None
+        if not (want_cli and cli_eligible(case)):
+            cli = None
+        elif case.get('layout'):
+            cli = sellib.impl_dodo(case, workdir)     # a real dodo file, `python -m doit` started somewhere else
+        else:
+            cli = sellib.impl_cli(case, workdir)
         impl.append((api, cli))
     reqs = [sellib.request(c, sellib.obs_for_monitor(cli) if cli else None) for c, (api, cli) in zip(cases, impl)]
     answers = common.drv_batch(reqs)
@@ -186,6 +205,9 @@ def evaluate(cases, workdir, want_cli=True):
                 for name, vals in m['cli_pos']:
                     if name in cli['kwargs'] and list(cli['kwargs'][name].get('pos') or []) != vals:
                         r['div'].append('cli: %s received pos=%s, model %s' % (name, cli['kwargs'][name].get('pos'), vals))
+            if cli.get('cwds') is not None and [c for c in cli['cwds'] if c != cli['expected_cwd']]:
+                r['div'].append('dodo: actions ran in %s, expected %s (layout %s)'
+                                % (cli['cwds'], cli['expected_cwd'], case.get('layout')))
             if cli_ok and exp_exit == 0 and m.get('chunked') is False:
                 r['div'].append('cli: the serial start order %s does not work the selection %s off one task after the '
                                 'other (abstraction chunkedB of the dispatcher)' % (cli['started'], head['sel'][1]))
@@ -315,8 +337,16 @@ def shrink_candidates(case):
         yield dict(c, default=None)
     if c.get('single'):
         yield dict(c, single=False)
+    if c.get('entry'):
+        c_no = dict(c)
+        c_no.pop('entry')
+        yield c_no
     if c.get('reporter') is not None:
         yield dict(c, reporter=None)
+    if c.get('layout') not in (None, 'plain'):
+        yield dict(c, layout='plain')
+    if c.get('lopts_after'):
+        yield dict(c, lopts_after=False)
     for i, t in enumerate(c['tasks']):
         c2 = json.loads(json.dumps(c))
         t2 = c2['tasks'].pop(i)
@@ -403,7 +433,13 @@ def process_batch(batch):
         classify(case, m, st)
         st.traces += 1 + (1 if r['cli'] is not None else 0)
         st.count('tier:api')
-        if r['cli'] is not None:
+        if r['cli'] is not None and case.get('layout'):
+            st.count('tier:dodo-file')
+            st.count('dodo-layout:%s%s' % (case['layout'], '(options after run)' if case.get('lopts_after') else ''))
+            st.count('cli-exit:%s' % r['cli']['exit'])
+        elif r['cli'] is not None and case.get('entry') == 'run_tasks':
+            st.count('tier:api-run_tasks')
+        elif r['cli'] is not None:
             st.count('tier:cli')
             st.count('cli-exit:%s' % r['cli']['exit'])
         if r['viol']:
@@ -492,6 +528,9 @@ def run(ctx):
     n_random = (600 if ctx.tier == 'quick' else 24000) * ctx.boost
     for i in range(n_random):
         cases.append(sellib.gen_case(random.Random(rng.getrandbits(64))))
+    n_dodo = (48 if ctx.tier == 'quick' else 900) * ctx.boost
+    for i in range(n_dodo):
+        cases.append(sellib.gen_dodo_case(random.Random(rng.getrandbits(64))))
     if ctx.tier == 'thorough':
         ex = exhaustive_cases(3, rng)
         ctx.extra['exhaustive_small_scope'] = {'task_sets': len(SMALL_SETS), 'alphabet': 9, 'max_argv_len': 3, 'reporters': ['recording', 'json', 'zero'],
